@@ -40,6 +40,10 @@ impl RegistryCore {
     fn register(&mut self, c: Box<dyn Collector>) -> Result<()> {
         let mut desc_id_set = HashSet::new();
         let mut collector_id: u64 = 0;
+        // Dimension hashes of this collector's descriptors. They are only
+        // recorded once the whole registration has succeeded, so that a failed
+        // registration leaves the registry untouched.
+        let mut new_dim_hashes: HashMap<String, u64> = HashMap::new();
 
         for desc in c.desc() {
             // Is the desc_id unique?
@@ -48,7 +52,11 @@ impl RegistryCore {
                 return Err(Error::AlreadyReg);
             }
 
-            if let Some(hash) = self.dim_hashes_by_name.get(&desc.fq_name) {
+            let known_dim_hash = self
+                .dim_hashes_by_name
+                .get(&desc.fq_name)
+                .or_else(|| new_dim_hashes.get(&desc.fq_name));
+            if let Some(hash) = known_dim_hash {
                 if *hash != desc.dim_hash {
                     return Err(Error::Msg(format!(
                         "a previously registered descriptor with the \
@@ -60,8 +68,7 @@ impl RegistryCore {
                 }
             }
 
-            self.dim_hashes_by_name
-                .insert(desc.fq_name.clone(), desc.dim_hash);
+            new_dim_hashes.insert(desc.fq_name.clone(), desc.dim_hash);
 
             // If it is not a duplicate desc in this collector, add it to
             // the collector_id.
@@ -83,6 +90,7 @@ impl RegistryCore {
         match self.collectors_by_id.entry(collector_id) {
             HEntry::Vacant(vc) => {
                 self.desc_ids.extend(desc_id_set);
+                self.dim_hashes_by_name.extend(new_dim_hashes);
                 vc.insert(c);
                 Ok(())
             }
